@@ -5,3 +5,12 @@ import JrsVerif.Props.C01
 #print axioms JrsVerif.Bind.call_style_invariant
 #print axioms JrsVerif.EvalBind.interpreter_binding_ok_iff
 #print axioms JrsVerif.EvalBind.interpreter_binding_assignment
+#print axioms JrsVerif.Eval.eval_fuel_mono
+#print axioms JrsVerif.Eval.eval_fuel_mono_le
+#print axioms JrsVerif.Eval.eval_deterministic
+#print axioms JrsVerif.Eval.evalProgram_fuel_mono
+#print axioms JrsVerif.Eval.evalProgram_deterministic
+#print axioms JrsVerif.Eval.ne_desugar
+#print axioms JrsVerif.Eval.ne_desugar_outcome
+#print axioms JrsVerif.Eval.slice_desugar
+#print axioms JrsVerif.Eval.method_desugar
